@@ -6,6 +6,7 @@ use crate::common::*;
 use crate::gen::*;
 use crate::rng::Rng;
 use crate::run::*;
+use crate::world::FilePlan;
 use crate::world::*;
 
 pub struct C17;
@@ -86,6 +87,19 @@ impl Property for C17 {
             schema_only: false,
         };
         case.pieces = gen_stream(rng, &w);
+        if noisy && matches!(family, "context" | "delivery") && rng.chance(1, 3) {
+            // junk glued to the value that follows it (a stray comma or bracket between
+            // values): the trailing whitespace of a garbage region is removed
+            for i in 0..case.pieces.len().saturating_sub(1) {
+                if case.pieces[i].kind == Kind::Garbage && case.pieces[i + 1].kind == Kind::Rec && rng.chance(2, 3) {
+                    let b = &mut case.pieces[i].bytes.0;
+                    while b.last().map_or(false, |c| matches!(c, b' ' | b'\t' | b'\n' | b'\r')) {
+                        b.pop();
+                    }
+                    case.pieces[i].tag = "glued".into();
+                }
+            }
+        }
         match family {
             "context" => {
                 for (sel, name) in CONTEXT_SELECTS {
@@ -104,6 +118,7 @@ impl Property for C17 {
                     case.set("files", 0);
                 } else {
                     case.set("files", 1);
+                    case.set("simfiles", i64::from(rng.chance(1, 2)));
                     place_cuts(rng, &mut case, false);
                 }
             }
@@ -324,6 +339,19 @@ fn check_delivery(case: &Case, ctx: &mut Ctx) -> Option<Violation> {
         if let Some(v) = compare("C17.delivery", "one real file vs stdin", &f, &d0, true) {
             return Some(v);
         }
+        // D3': the same file behind the opener seam (hook H2), delivered in seeded chunks
+        // with EINTR underneath jawk's own BufReader (a file on a pipe, FUSE or network mount)
+        let plan = gen_file_plan(&mut rng, input.len());
+        let paths = ctx.fresh_paths(1);
+        let mut sf = ctx.exec(sim_files_spec(case, &paths, &[input.clone()], &[plan.clone()]));
+        if sf.obs.short_reads + sf.obs.intr_reads > 0 {
+            ctx.stats.probe("file argument delivered in chunks / with EINTR");
+        }
+        sf.obs.stderr = strip_paths(&sf.obs.stderr, &paths);
+        sf.obs.stdout = strip_paths(&sf.obs.stdout, &paths);
+        if let Some(v) = compare("C17.delivery", &format!("one file delivered as {plan:?} vs stdin"), &sf, &d0, true) {
+            return Some(v);
+        }
     }
     ctx.stats.nontrivial = different >= 2;
     None
@@ -391,6 +419,25 @@ fn check_files_concat(case: &Case, ctx: &mut Ctx) -> Option<Violation> {
         false,
     ) {
         return Some(v);
+    }
+    // the same partition behind the opener seam, every file in seeded chunks with EINTR
+    {
+        let mut rng = Rng::new(crate::rng::mix(&[input.len() as u64, files.len() as u64, 17]));
+        let plans: Vec<FilePlan> = files.iter().map(|f| gen_file_plan(&mut rng, f.len())).collect();
+        let paths = ctx.fresh_paths(files.len());
+        let sf = ctx.exec(sim_files_spec(case, &paths, &files, &plans));
+        if sf.obs.short_reads + sf.obs.intr_reads > 0 {
+            ctx.stats.probe("file partition delivered in chunks / with EINTR");
+        }
+        if let Some(v) = compare(
+            "C17.files-concat",
+            &format!("{} files cut at gaps, delivered in chunks, vs the same bytes on stdin", files.len()),
+            &sf,
+            &d0,
+            false,
+        ) {
+            return Some(v);
+        }
     }
     let lines = |b: &[u8]| b.iter().filter(|x| **x == b'\n').count();
     if fr.out.outcome.is_ok() && lines(&fr.out.obs.stderr) != lines(&d0.obs.stderr) {
@@ -555,7 +602,13 @@ fn check_context(case: &Case, ctx: &mut Ctx) -> Option<Violation> {
             _ => {}
         }
     }
-    let (out, paths) = if use_files {
+    let (out, paths) = if use_files && case.param("simfiles") == 1 {
+        let mut rng = Rng::new(crate::rng::mix(&[files.len() as u64, case.stream().len() as u64, 23]));
+        let plans: Vec<FilePlan> = files.iter().map(|f| gen_file_plan(&mut rng, f.len())).collect();
+        let paths = ctx.fresh_paths(files.len());
+        ctx.stats.probe("context rows from chunked file arguments");
+        (ctx.exec(sim_files_spec(case, &paths, &files, &plans)), paths)
+    } else if use_files {
         let fr = run_on_files(case, &files, ctx);
         (fr.out, fr.paths)
     } else {
@@ -573,6 +626,17 @@ fn check_context(case: &Case, ctx: &mut Ctx) -> Option<Violation> {
     }
     let text = String::from_utf8_lossy(&out.obs.stdout).to_string();
     let rows: Vec<&str> = text.split('\n').filter(|l| !l.is_empty()).collect();
+    let glued = case.pieces.iter().any(|p| p.kind == Kind::Garbage && p.tag == "glued");
+    if glued {
+        ctx.stats.probe("junk glued to the following value");
+    }
+    if rows.len() != known.len() && glued {
+        // how a reader resynchronises inside a token that starts with junk is not fixed by
+        // the property; positions are judged only when every generated value was processed
+        ctx.stats.invalid = true;
+        ctx.stats.probe("skipped: glued junk changed which values are processed");
+        return None;
+    }
     if rows.len() != known.len() {
         return viol(
             "C17.context",
